@@ -90,33 +90,33 @@ func (c *SimConn) Read(p []byte) (int, error) {
 			c.rbuf = c.rbuf[n:]
 			c.Reads++
 			c.ReadBytes += n
-			c.inRead = false
 			c.mu.Unlock()
 			return n, nil
 		}
 		if c.closed {
-			c.inRead = false
 			c.mu.Unlock()
 			return 0, net.ErrClosed
 		}
 		if c.rerr != nil {
 			err := c.rerr
-			c.inRead = false
 			c.mu.Unlock()
 			return 0, err
 		}
+		// Park. The park is accounted here and un-accounted by whoever wakes us
+		// (wakeReaderLocked), so the count is never stale while we are runnable.
 		c.inRead = true
-		c.mu.Unlock()
 		c.e.ParkBegin(false)
+		c.mu.Unlock()
 		<-c.rwait
-		c.e.ParkEnd(false)
 	}
 }
 
-func (c *SimConn) signal() {
-	select {
-	case c.rwait <- struct{}{}:
-	default:
+// wakeReaderLocked wakes a parked Read (c.mu held).
+func (c *SimConn) wakeReaderLocked() {
+	if c.inRead {
+		c.inRead = false
+		c.e.ParkEnd(false)
+		c.rwait <- struct{}{} // capacity 1, exactly one token per park
 	}
 }
 
@@ -124,8 +124,8 @@ func (c *SimConn) signal() {
 func (c *SimConn) Deliver(b []byte) {
 	c.mu.Lock()
 	c.rbuf = append(c.rbuf, b...)
+	c.wakeReaderLocked()
 	c.mu.Unlock()
-	c.signal()
 }
 
 // EndRead makes reads fail with err once delivered bytes are consumed (EOF), or
@@ -136,15 +136,15 @@ func (c *SimConn) EndRead(err error, discard bool) {
 		c.rbuf = nil
 	}
 	c.rerr = err
+	c.wakeReaderLocked()
 	c.mu.Unlock()
-	c.signal()
 }
 
 // ReaderParked reports whether the library is blocked in Read right now.
 func (c *SimConn) ReaderParked() bool {
 	c.mu.Lock()
 	defer c.mu.Unlock()
-	return c.inRead && len(c.rbuf) == 0
+	return c.inRead
 }
 
 // Unread returns the number of delivered bytes not yet read.
@@ -174,12 +174,11 @@ func (c *SimConn) Write(p []byte) (int, error) {
 			c.stalled = true
 			c.resume = make(chan struct{})
 			ch := c.resume
+			c.e.ParkBegin(true)
 			c.mu.Unlock()
 			c.e.Fault("write-stall")
 			c.e.Poke()
-			c.e.ParkBegin(true)
 			<-ch
-			c.e.ParkEnd(true)
 			c.mu.Lock()
 			c.stalled = false
 			if c.closed {
@@ -242,6 +241,9 @@ func (c *SimConn) Resume() {
 	c.mu.Lock()
 	ch := c.resume
 	c.resume = nil
+	if ch != nil {
+		c.e.ParkEnd(true)
+	}
 	c.mu.Unlock()
 	if ch != nil {
 		close(ch)
@@ -281,11 +283,14 @@ func (c *SimConn) Close() error {
 	}
 	ch := c.resume
 	c.resume = nil
+	if ch != nil {
+		c.e.ParkEnd(true)
+	}
+	c.wakeReaderLocked()
 	c.mu.Unlock()
 	if ch != nil {
 		close(ch)
 	}
-	c.signal()
 	if first {
 		c.e.Poke()
 	}
@@ -343,31 +348,33 @@ func (l *SimListener) Accept() (net.Conn, error) {
 			it := l.q[0]
 			l.q = l.q[1:]
 			l.Accepts++
-			l.parked = false
 			l.mu.Unlock()
 			l.e.Poke()
 			return it.c, it.err
 		}
 		if l.closed {
-			l.parked = false
 			l.mu.Unlock()
 			return nil, net.ErrClosed
 		}
 		l.parked = true
-		l.mu.Unlock()
 		l.e.ParkBegin(false)
+		l.mu.Unlock()
 		<-l.wait
-		l.e.ParkEnd(false)
 	}
 }
 
 func (l *SimListener) push(it acceptItem) {
 	l.mu.Lock()
 	l.q = append(l.q, it)
+	l.wakeLocked()
 	l.mu.Unlock()
-	select {
-	case l.wait <- struct{}{}:
-	default:
+}
+
+func (l *SimListener) wakeLocked() {
+	if l.parked {
+		l.parked = false
+		l.e.ParkEnd(false)
+		l.wait <- struct{}{}
 	}
 }
 
@@ -395,11 +402,8 @@ func (l *SimListener) Parked() bool {
 func (l *SimListener) Close() error {
 	l.mu.Lock()
 	l.closed = true
+	l.wakeLocked()
 	l.mu.Unlock()
-	select {
-	case l.wait <- struct{}{}:
-	default:
-	}
 	return nil
 }
 
